@@ -1,6 +1,6 @@
 (* C05/Witness.v — non-vacuity of the hypotheses of the theorems in Properties.v and concrete runs
    of the model (vm_compute). *)
-From Verif Require Import Common.Base Generated.C05BackoffValidate C05.Model C05.Proofs C05.Proofs2.
+From Verif Require Import Common.Base Generated.C05BackoffValidate C05.Model C05.Proofs C05.Proofs2 C05.Harness C05.Clauses.
 Local Open Scope Z_scope.
 
 Definition ms : Z := 1000000.
@@ -179,3 +179,25 @@ Example ex_distinct_instants :
   exists st, nth_error (steps_of (sc1 (Some (60 * ms)) None 0) script1) 0 = Some st /\
              Z.max (s_end st) (60 * ms) <> s_end st + s_delay st /\ ctx_done (sc1 (Some (60 * ms)) None 0) = None.
 Proof. eexists. split; [vm_compute; reflexivity|]. split; [vm_compute; discriminate|reflexivity]. Qed.
+
+(* ---- the link theorem model_passes_checker: its guards hold for sc1 / script1, the checker accepts the model's own
+   observation, and it is not vacuous: tampered observations are rejected with the right clause ------------------- *)
+Example ex_link_guards :
+  valid_config (sc_cfg (sc1 (Some (60 * ms)) None 0)) /\ valid_draw (draw_at (sc1 (Some (60 * ms)) None 0) 3) /\
+  verdict_of (sc1 (Some (60 * ms)) None 0) script1 <> VPending.
+Proof. unfold valid_config, valid_draw. vm_compute. repeat split; try reflexivity; discriminate. Qed.
+
+Example ex_link_accepts :
+  let sc := sc1 None None (200 * ms) in
+  violations_core sc true script1 (observe_atts sc (steps_of sc script1)) (observe_delays (steps_of sc script1))
+                  (observe_final sc script1) = [].
+Proof. vm_compute. reflexivity. Qed.
+
+(* one more attempt than the model makes (after the budget verdict): clauses 2 and 5; a shortened delay: clause 4 ... *)
+Example ex_link_rejects :
+  let sc := sc1 None None (200 * ms) in
+  let l := steps_of sc script1 in
+  violations_core sc true script1 (observe_atts sc l ++ [([2; 3; 3], 2)]) (observe_delays l) (observe_final sc script1) <> [] /\
+  violations_core sc true script1 (observe_atts sc l) (map (fun d => d - 1) (observe_delays l)) (observe_final sc script1) <> [] /\
+  violations_core sc true script1 (observe_atts sc l) (observe_delays l) [0; 0; 0] <> [].
+Proof. vm_compute. repeat split; discriminate. Qed.
